@@ -2,6 +2,8 @@ package explore
 
 import (
 	"fmt"
+	"github.com/akrylysov/pogreb/fs"
+	"os"
 	"regexp"
 	"sort"
 	"strings"
@@ -24,17 +26,21 @@ type Scenario struct {
 	Threads    []ThreadProg
 	FSYield    bool // every simfs call is a scheduling point
 	TrackRaces bool // happens-before race detection on simfs objects
-	Worker     bool // open the database with both background intervals > 0 (ticks are scheduler choices)
-	TickBudget int
-	Bound      int // preemption bound (<0: unbounded)
-	Record     bool
-	Poison     bool
-	YieldSeg   bool // with FSYield: only calls on segment files, the directory table and files outside the database directory are scheduling points (index/meta files are touched under DB.mu only and never by Backup/FileSize readers)
-	Unclean    bool // the base image is left unclean (lock file present): the scenario's Open runs recovery
+	// WrapFS: "" = simfs with its hook; "sim", "mem", "os", "osmmap" = the database runs on that file system behind a
+	// YieldFS wrapper (every file-system call is a scheduling point, the same on all four); Target names the directory.
+	WrapFS         string
+	Target         *RealTarget
+	Worker         bool // open the database with both background intervals > 0 (ticks are scheduler choices)
+	TickBudget     int
+	Bound          int // preemption bound (<0: unbounded)
+	Record         bool
+	Poison         bool
+	YieldSeg       bool // with FSYield: only calls on segment files, the directory table and files outside the database directory are scheduling points (index/meta files are touched under DB.mu only and never by Backup/FileSize readers)
+	Unclean        bool // the base image is left unclean (lock file present): the scenario's Open runs recovery
 	NoPrivateQuiet bool // disable the thread-private-mutex reduction (set automatically when its assumption breaks)
-	YieldDirOnly bool // with FSYield: only calls that read or change the directory table (open, create, remove, rename, readdir, stat, lock) are scheduling points. Data reads/writes of one thread step then happen atomically between that thread's neighbouring points; every order of such a step relative to the other threads' steps is still explored (files here are smaller than one copy buffer)
-	QuietPop   bool // reduction: iterator Next calls that only pop an already fetched item are not scheduling points
-	PostClose  []Op // operations main runs after the threads joined and after Close (use-after-close probes)
+	YieldDirOnly   bool // with FSYield: only calls that read or change the directory table (open, create, remove, rename, readdir, stat, lock) are scheduling points. Data reads/writes of one thread step then happen atomically between that thread's neighbouring points; every order of such a step relative to the other threads' steps is still explored (files here are smaller than one copy buffer)
+	QuietPop       bool // reduction: iterator Next calls that only pop an already fetched item are not scheduling points
+	PostClose      []Op // operations main runs after the threads joined and after Close (use-after-close probes)
 }
 
 // Describe renders the scenario.
@@ -57,7 +63,7 @@ func (sc *Scenario) JSON() map[string]interface{} {
 		ts = append(ts, w)
 	}
 	return map[string]interface{}{"name": sc.Name, "base": sc.Base, "cfg": sc.Cfg, "threads": ts, "fs_yield": sc.FSYield, "track_races": sc.TrackRaces,
-		"worker": sc.Worker, "tick_budget": sc.TickBudget, "bound": sc.Bound, "poison": sc.Poison, "quiet_pop": sc.QuietPop, "yield_seg": sc.YieldSeg, "yield_dir_only": sc.YieldDirOnly, "no_private_quiet": sc.NoPrivateQuiet, "unclean": sc.Unclean, "post_close": WordString(sc.PostClose)}
+		"worker": sc.Worker, "tick_budget": sc.TickBudget, "bound": sc.Bound, "poison": sc.Poison, "quiet_pop": sc.QuietPop, "yield_seg": sc.YieldSeg, "yield_dir_only": sc.YieldDirOnly, "no_private_quiet": sc.NoPrivateQuiet, "unclean": sc.Unclean, "post_close": WordString(sc.PostClose), "wrap_fs": sc.WrapFS}
 }
 
 // Event is one completed operation of a thread.
@@ -335,6 +341,23 @@ func RunScenario(sc *Scenario, base *Base, prefix []int, keepTrace bool, sleep .
 	r := &ConcRun{}
 	s := base.NewSess()
 	r.Sess = s
+	if sc.WrapFS != "" && sc.WrapFS != "sim" {
+		if sc.Target == nil {
+			sc.Target = &RealTarget{Kind: sc.WrapFS, Dir: fmt.Sprintf("/dev/shm/pogverif-rfs-%d-%s", os.Getpid(), sc.WrapFS)}
+			if sc.WrapFS == "mem" {
+				sc.Target.Dir = fmt.Sprintf("pogverif-rfs-%d", os.Getpid())
+			}
+		}
+		if sc.Unclean {
+			s.FS.SetBytes(DBPath+"/lock", nil)
+		}
+		if err := sc.Target.Reset(s.FS); err != nil {
+			r.OpenErr = "harness: copying the base image to the target: " + err.Error()
+			r.X = &vsync.Exec{}
+			return r
+		}
+		defer sc.Target.Clean()
+	}
 	s.FS.Record = sc.Record
 	s.FS.Poison = sc.Poison
 	curOp := map[int]int{}
@@ -372,11 +395,20 @@ func RunScenario(sc *Scenario, base *Base, prefix []int, keepTrace bool, sleep .
 			s.FS.SetBytes(DBPath+"/lock", nil)
 		}
 		opts := s.Cfg.Options(s.FS)
+		dbpath := DBPath
+		if sc.WrapFS != "" {
+			var inner fs.FileSystem = s.FS
+			if sc.WrapFS != "sim" {
+				inner, dbpath = sc.Target.FS(), sc.Target.Dir
+				s.SkipStructure = true // the structural walk reads segment files from simfs
+			}
+			opts = s.Cfg.Options(&YieldFS{Inner: inner})
+		}
 		if sc.Worker {
 			opts.BackgroundSyncInterval = 1000 * time.Hour
 			opts.BackgroundCompactionInterval = 1000 * time.Hour
 		}
-		db, err := pogreb.Open(DBPath, opts)
+		db, err := pogreb.Open(dbpath, opts)
 		if err != nil {
 			r.OpenErr = err.Error()
 			return
@@ -408,7 +440,9 @@ func RunScenario(sc *Scenario, base *Base, prefix []int, keepTrace bool, sleep .
 				s.Model = all
 				r.FinalMsg = s.Check()
 				// what a recovery would rebuild from the log must be what the database shows now
-				if d := refmodel.ReplayDir(SegmentFiles(s.FS)); d.Err != "" {
+				if sc.WrapFS != "" && sc.WrapFS != "sim" {
+					// (the segment files are not on simfs)
+				} else if d := refmodel.ReplayDir(SegmentFiles(s.FS)); d.Err != "" {
 					r.ReplayMsg = "independent replay: " + d.Err
 				} else if got := ModelFromDecode(d); !all.Equal(got) {
 					r.ReplayMsg = "independent replay of the segment files (what a crash recovery would rebuild) differs from the contents at quiescence: " + all.Diff(got, s.KeyName)
